@@ -26,8 +26,13 @@ structure CbDrv where
   pendingAdd : Option (String × Option Nat) := none
 
 /-- the variant is read off the source: `Gen.callbackPutDispatchBlocking` -/
-def cbDrvInit : CbDrv := { cfg := { cap := Gen.callbackWorkerQueue, blocking := Gen.callbackPutDispatchBlocking,
-  closeBlocking := Gen.callbackAddCloseSendBlocking, ends := Gen.callbackOverflowEndsConsumer } }
+def codeCfg : Cfg :=
+  { cap := Gen.callbackWorkerQueue
+    blocking := Gen.callbackPutDispatchBlocking
+    closeBlocking := Gen.callbackAddCloseSendBlocking
+    ends := Gen.callbackOverflowEndsConsumer }
+
+def cbDrvInit : CbDrv := { cfg := codeCfg }
 
 
 def showJob : Job → String
@@ -146,6 +151,10 @@ def cbStep (d : CbDrv) (f : List String) : CbDrv × String :=
     match n.toNat? with
     | none => (d, "bad-op")
     | some n =>
+      -- only a gated consumer can be released (the harness refuses the op otherwise)
+      match (d.cons.find? (·.id == id)).bind (·.credits) with
+      | none => (d, "bad-state")
+      | some _ =>
       let d1 := { d with cons := d.cons.map fun x => if x.id == id then { x with credits := x.credits.map (· + n) } else x }
       (settle cbFuel d1, "ok")
   | ["wait"] =>
